@@ -449,3 +449,63 @@ def run_one(ctx, subject, case, check):
         r = (r, ())
     ctx.record(subject, case, r[0], r[1])
     return True
+
+
+def search_machine(ctx, subject, machine_cls, n, steps=40, max_causes=3):
+    """Stateful (rule-based) search.  `machine_cls` is a RuleBasedStateMachine subclass whose
+    instances keep the executed operations in `self.log` and expose `nontrivial()` / `classes()`;
+    every executed history is accounted in teardown; the last failing history (the shrunk one,
+    which Hypothesis replays last) becomes the replay case."""
+    import hypothesis
+    from hypothesis import HealthCheck, Phase, Verbosity, settings
+    from hypothesis.stateful import run_state_machine_as_test
+
+    last = {}
+
+    class M(machine_cls):
+        def __init__(self):
+            machine_cls.__init__(self)
+            self._ctx, self._subject, self._last = ctx, subject, last
+
+        def teardown(self):
+            try:
+                machine_cls.teardown(self)
+            finally:
+                if not getattr(self, "failed", False):
+                    ctx.record(subject, list(self.log), self.nontrivial(), self.classes())
+
+    M.__name__ = machine_cls.__name__
+    for attempt in range(max_causes):
+        st_ = settings(max_examples=n, stateful_step_count=steps, database=None, deadline=None,
+                       derandomize=False, report_multiple_bugs=False, print_blob=False,
+                       verbosity=Verbosity.quiet, phases=[Phase.generate, Phase.shrink],
+                       suppress_health_check=list(HealthCheck))
+        try:
+            run_state_machine_as_test(
+                hypothesis.seed(derive_seed(ctx.seed, ctx.prop, subject, ctx.shard, attempt))(M), settings=st_)
+            return
+        except Violation as v:
+            ctx.violation(subject, last.get("log"), v)
+        except hypothesis.errors.Flaky as e:
+            if "v" not in last:
+                raise HarnessError("flaky state machine without a recorded failure: %r" % (e,))
+            v = Violation("history_dependent:" + last["v"].kind, dict(last["v"].detail))
+            ctx.violation(subject, last.get("log"), v)
+            return
+        except hypothesis.errors.HypothesisException as e:
+            raise HarnessError("hypothesis error in %s/%s: %r" % (ctx.prop, subject, e))
+
+
+def machine_step(machine, fn):
+    """run one operation of a state machine: oracle failures are dispatched like in search()."""
+    try:
+        fn()
+    except Violation as v:
+        ctx, subject = machine._ctx, machine._subject
+        ctx.evaluations += 1
+        if ctx.handle(subject, list(machine.log), v):
+            return
+        machine.failed = True
+        machine._last["log"] = list(machine.log)
+        machine._last["v"] = v
+        raise
